@@ -446,11 +446,80 @@ def plan(tier, seed_value):
             specs.append({'kind': 'enumerate', 'index': index, 'part': part,
                           'parts': parts,
                           'depth': 2 if tier == 'thorough' else 1})
+    for k in range(4):
+        specs.append({'kind': 'lsrun', 'seed': seed_value * 1000 + k,
+                      'examples': 12 if tier == 'thorough' else 3})
     return specs
+
+
+# ---- the documented way of queuing several scripts: lsrun a.ls b.ls c.ls -------------
+# A real process, because what happens to the queue when the thread that
+# filled it (the main thread) returns is decided by the interpreter.
+@st.composite
+def command_lines(draw):
+    count = draw(st.integers(1, 4))
+    scripts = []
+    for index in range(count):
+        delay = draw(st.sampled_from([0, 0, 0.2, 0.4]))
+        body = 'println "{}-begin"'.format(index)
+        if delay:
+            body += ' time {} wait'.format(delay)
+        body += ' println "{}-end"'.format(index)
+        scripts.append(body)
+    return scripts
+
+
+def check_command_line(acc, scripts):
+    import os
+    import shutil
+    import subprocess
+    import sys
+    directory = env.work_dir(ID, 'lsrun-{}'.format(os.getpid()))
+    files = []
+    for index, text in enumerate(scripts):
+        path = os.path.join(directory, 's{}.ls'.format(index))
+        with open(path, 'w') as dst:
+            dst.write(text + '\n')
+        files.append(path)
+    environment = dict(os.environ, PYTHONPATH=env.REPO,
+                       PYTHONWARNINGS='ignore')
+    try:
+        done = subprocess.run(
+            [sys.executable, '-m', 'bardolph.controller.run', '-f'] + files,
+            cwd=env.REPO, env=environment, capture_output=True, text=True,
+            timeout=120)
+    except subprocess.TimeoutExpired:
+        raise env.HarnessError('lsrun did not end within 120 s')
+    finally:
+        shutil.rmtree(directory, ignore_errors=True)
+    want = []
+    for index in range(len(scripts)):
+        want += ['{}-begin'.format(index), '{}-end'.format(index)]
+    got = [line for line in done.stdout.split('\n')
+           if line.endswith(('-begin', '-end'))]
+    timed = sum('time' in text for text in scripts)
+    acc.case(key=repr(scripts), nontrivial=len(scripts) >= 2 and timed >= 1,
+             labels=['lsrun', 'files:{}'.format(len(scripts))],
+             sample={'scripts': scripts, 'stdout': got}
+             if len(scripts) >= 2 and len(acc.samples) < 2 else None)
+    if got != want:
+        acc.fail('lsrun-queue',
+                 'lsrun with {} files ran {} - expected every script once, in '
+                 'order: {}\n{}'.format(len(scripts), got, want,
+                                        done.stderr.strip()[-300:]),
+                 {'kind': 'lsrun', 'scripts': scripts})
 
 
 def run_shard(spec):
     acc = Acc()
+    if spec['kind'] == 'lsrun':
+        @seed(spec['seed'])
+        @progbase.hyp_settings(spec['examples'])
+        @given(command_lines())
+        def run_lines(scripts):
+            check_command_line(acc, scripts)
+        run_lines()
+        return acc
     if spec['kind'] == 'enumerate':
         enumerate_fixed(acc, spec['index'], spec['part'], spec['parts'],
                         spec['depth'])
@@ -473,5 +542,8 @@ def finish(merged, tier):
 
 def replay(case):
     acc = Acc()
+    if case.get('kind') == 'lsrun':
+        check_command_line(acc, case['scripts'])
+        return [(f['sig'], f['what']) for f in acc.failures.values()]
     check(acc, case['scenario'], case['schedule'], 'replay')
     return [(f['sig'], f['what']) for f in acc.failures.values()]
